@@ -1,28 +1,15 @@
 /-
-  Certificate obligations, parts 16..23 of 64 of the `current` client system (kernel evaluation; 8 modules
-  so that lake checks them in parallel; small parts keep the kernel's memory small).
-  Assembled in `Lemmas/CliCert.lean`.
+  Certificate obligations, parts 4..5 of 16 of the `current` client system (kernel evaluation; 8 modules
+  so that lake checks them in parallel). Assembled in `Lemmas/CliCert.lean`.
 -/
 import KmipModel.Model.CliConn
 import KmipModel.Gen.CertCliConn
 namespace Kmip.CliCert
 open Kmip.CliLts Kmip.CliConn Kmip.Gen.CertCliConn
 
-theorem cuClosed16 : partClosed (sys current) codec certCurrent cuP16 = true := by decide +kernel
-theorem cuSafe16 : partSafe codec (badPartial current) cuP16 = true := by decide +kernel
-theorem cuClosed17 : partClosed (sys current) codec certCurrent cuP17 = true := by decide +kernel
-theorem cuSafe17 : partSafe codec (badPartial current) cuP17 = true := by decide +kernel
-theorem cuClosed18 : partClosed (sys current) codec certCurrent cuP18 = true := by decide +kernel
-theorem cuSafe18 : partSafe codec (badPartial current) cuP18 = true := by decide +kernel
-theorem cuClosed19 : partClosed (sys current) codec certCurrent cuP19 = true := by decide +kernel
-theorem cuSafe19 : partSafe codec (badPartial current) cuP19 = true := by decide +kernel
-theorem cuClosed20 : partClosed (sys current) codec certCurrent cuP20 = true := by decide +kernel
-theorem cuSafe20 : partSafe codec (badPartial current) cuP20 = true := by decide +kernel
-theorem cuClosed21 : partClosed (sys current) codec certCurrent cuP21 = true := by decide +kernel
-theorem cuSafe21 : partSafe codec (badPartial current) cuP21 = true := by decide +kernel
-theorem cuClosed22 : partClosed (sys current) codec certCurrent cuP22 = true := by decide +kernel
-theorem cuSafe22 : partSafe codec (badPartial current) cuP22 = true := by decide +kernel
-theorem cuClosed23 : partClosed (sys current) codec certCurrent cuP23 = true := by decide +kernel
-theorem cuSafe23 : partSafe codec (badPartial current) cuP23 = true := by decide +kernel
+theorem cuClosed4 : partClosed (sys current) codec certCurrent cuP4 = true := by decide +kernel
+theorem cuSafe4 : partSafe codec (bad current) cuP4 = true := by decide +kernel
+theorem cuClosed5 : partClosed (sys current) codec certCurrent cuP5 = true := by decide +kernel
+theorem cuSafe5 : partSafe codec (bad current) cuP5 = true := by decide +kernel
 
 end Kmip.CliCert
